@@ -51,11 +51,24 @@ def _work(task):
     n = 0
     while stack and n < budget_paths and (time.perf_counter() - t0) < budget_s:
         p = stack.pop()
-        r = symx.run_path(
-            harness, params, p,
-            time_sort=opts["time_sort"], query_timeout_ms=opts["query_timeout_ms"],
-            max_decisions=opts["max_decisions"], isolate_checks=opts.get("isolate_checks", False),
-        )
+        try:
+            r = symx.run_path(
+                harness, params, p,
+                time_sort=opts["time_sort"], query_timeout_ms=opts["query_timeout_ms"],
+                max_decisions=opts["max_decisions"], isolate_checks=opts.get("isolate_checks", False),
+            )
+        except (KeyboardInterrupt, SystemExit):
+            raise
+        except BaseException as e:  # pylint: disable=broad-except
+            # must not kill the worker: a lost task would stall the pool
+            n += 1
+            out.append({
+                "status": "error", "reason": None,
+                "error": f"exception escaped run_path: {type(e).__name__}: {e}",
+                "violations": [], "n_queries": 0, "solver_s": 0.0, "n_oblig": 0, "n_discharged": 0,
+                "n_unknown": 0, "unknown_labels": [], "covered": [], "n_decisions": len(p),
+                "inconclusive_branches": 0, "inputs": None, "validated": None, "val_error": None, "logs": None})
+            continue
         n += 1
         stack.extend(r.new_prefixes)
         rec = {
@@ -69,7 +82,12 @@ def _work(task):
             "logs": None,
         }
         if r.status == "done" and opts["validate"] and opts["validate_filter"](p):
-            c = symx.run_concrete(harness, params, r.inputs, time_sort=opts["time_sort"])
+            try:
+                c = symx.run_concrete(harness, params, r.inputs, time_sort=opts["time_sort"])
+            except (KeyboardInterrupt, SystemExit):
+                raise
+            except BaseException as e:  # pylint: disable=broad-except
+                c = {"status": "error", "error": f"{type(e).__name__}: {e}", "failed": [], "logs": []}
             if c["status"] != "done":
                 rec["validated"] = False
                 rec["val_error"] = f"concrete run ended with {c['status']}: {c['error']}"
